@@ -7,6 +7,7 @@ import c01
 PROP = "C13"
 PROPS = "props/C13.v"
 PROPS_B = "props/C13b.v"   # integration with C12: tojson|fromjson, tostring|tonumber (coq/integ/TojsonFromjson.v)
+PROPS_D = "props/C13d.v"   # paths / tostream of builtin.jq over coq/sem (coq/sem/StreamLaws*.v)
 PROPS_C = "props/C13c.v"   # the jq-defined pairs over the reference semantics coq/sem applied to builtin.jq of the current tree
 DEPS = ["c13/Utf8.v", "c13/Codec.v", "c13/Jv.v", "c13/Time.v", "c13/Run.v"]
 
@@ -103,6 +104,7 @@ def run(tier, seed, only_cands=None):
     else:
         c01.regen_builtins(c, exe_sem)
     proved = c.prove(PROPS_C) and proved
+    proved = c.prove(PROPS_D) and proved
     jqdefs.check(c, V.REPO, JQ_TEXT)
     exe_h, hlog = V.build_harness("c13")
     mism, st, lst = [], {}, {}
